@@ -141,6 +141,8 @@ def p_mixed(r, pid):
 IDIOMS = {
     "py": [
         "def has_negative{n}(values):\n    for value in values:\n        if value < 0:\n            return True\n    return False",
+        "def build{n}(u):\n    first = make(\n        alpha=u.one,\n        beta=u.two,\n        gamma=u.three,\n        delta=u.four,\n    )\n    second = make(\n        alpha=u.one,\n        beta=u.two,\n        gamma =\n            u.three,\n        delta=u.four,\n    )\n    return first, second",
+        "def guarded{n}(name):\n    try:\n        step(name)\n    except ValueError as exc:\n        raise StepError(name) from exc\n    try:\n        other(name)\n    except KeyError as exc:\n        raise StepError(name) from exc\n    return name",
         "def all_positive{n}(values):\n    for value in values:\n        if value <= 0:\n            return False\n    return True",
         "def cleaned{n}(values):\n    result = []\n    for value in values:\n        stripped = value.strip()\n        if stripped:\n            result.append(stripped)\n    return result",
         "def leading{n}(values):\n    taken = []\n    for value in values:\n        if value < 0:\n            break\n        taken.append(value)\n    return taken",
